@@ -427,6 +427,10 @@ def run(ctx):
     rule_env(ctx, tu, py, I)
     rule_py_siblings(ctx, py)
     rule_graph_neighbours(ctx, py)
+    # shared clause: GetNeighborIndex itself (directions, periodic wrap, range test) -- the symmetric neighbour relation
+    from ..core import borrow
+    from . import c15
+    borrow(ctx, "C01", c15.rule_cx, ctx.cx)
     from .. import lints
     lints.run(ctx, "C01", ctx.py, ["kinetics", "rdsystem", "librdengine"])
     ctx.assume("agreement to rounding is not decided; that the mean is harmonic is decided only relatively (all four "
